@@ -276,8 +276,25 @@ func (x *fx) havocAllMem(tagp string) {
 			}
 		}
 	}
+	pre := x.curMem
 	x.curMem = h
 	x.noteHavocAll()
+	if keeps := x.c.CallKeeps["*"]; len(keeps) > 0 && x.keepAllRegs == nil {
+		env := x.paramEnv(x.entryMem)
+		for _, e := range keeps {
+			x.keepAllRegs = append(x.keepAllRegs, x.regionsOf(e, env)...)
+		}
+	}
+	for _, r := range x.keepAllRegs {
+		oldV, newV := x.resolve(pre, r.mem), x.resolve(x.curMem, r.mem)
+		if oldV != newV {
+			x.assume(fmt.Sprintf("(forall ((i %s)) (! (=> %s (= (select (select %s %s) i) (select (select %s %s) i))) :pattern ((select (select %s %s) i))))",
+				x.idxSort(), x.and(x.ile(r.lo, "i"), x.ilt("i", r.hi)), newV, r.ref, oldV, r.ref, newV, r.ref))
+		}
+	}
+	if len(x.keepAllRegs) > 0 {
+		x.assumptions["no unmodelled callee changes "+strings.Join(x.c.CallKeepSrc["*"], ", ")+" (keepsall)"] = true
+	}
 }
 
 
@@ -288,6 +305,17 @@ func (x *fx) staticCall(f *ssa.Function, bindings []ssa.Value, cc *ssa.CallCommo
 	}
 	pkg, name := fnKey(f)
 	full := pkg + "." + name
+	if (x.c.Pure[name] || x.c.Pure[f.Name()]) && f.Signature.Recv() != nil && len(args) > 0 {
+		// pure method: an uninterpreted function of the receiver's *value* (and arguments)
+		recv := args[0]
+		if pt, ok := recv.T.Underlying().(*types.Pointer); ok {
+			if _, isStruct := pt.Elem().Underlying().(*types.Struct); isStruct {
+				recv = x.load(x.curMem, recv)
+			}
+		}
+		set(x.pureMethod(recv, f.Name(), args[1:], x.curMem))
+		return
+	}
 	if x.c.Pure[name] || x.c.Pure[f.Name()] {
 		// pure static function as UF
 		fv := &Val{T: f.Type(), S: fmt.Sprint(x.g.funcID(f))}
